@@ -562,3 +562,80 @@ Proof. eexists. split; [vm_compute; reflexivity|]. split; reflexivity. Qed.
 Theorem uncommit_tree_untouched nb s :
   disk (uncommit_tree nb s) = disk s /\ inv (uncommit_tree nb s) = inv s /\ mm (uncommit_tree nb s) = mm s.
 Proof. repeat split. Qed.
+
+(* ================================================================== merge-hashes after a merge *)
+(* a path is recorded in merge_modified() only if the merge wrote its content: OTHER's text, or the output of
+   text_merge -- never the untouched local file (so a later revert cannot mistake a user edit for merge output) *)
+Theorem merge_recorded_was_written o base this tv sid other rs r :
+  merge_entry o base this tv sid other rs = Some r -> r_mm r = true ->
+  exists ot, other = Some ot /\
+    (r_main r = Some (text ot)
+     \/ exists ls flag, text_merge o (base_lines base) this ot rs = Some (ls, flag) /\ r_main r = Some (text ls)).
+Proof.
+  unfold merge_entry. destruct tv; cbn [negb].
+  - destruct base as [b|], other as [ot|].
+    + destruct (merge_file o b this ot rs (wt0 this)) as [w|] eqn:M; [|discriminate].
+      intros H Hm. injection H as <-. cbn in Hm. apply andb_true_iff in Hm as [E1 E2].
+      apply negb_true_iff in E1, E2. unfold merge_file in M. rewrite E1, E2 in M.
+      exists ot. split; [reflexivity|].
+      destruct (bytes_eqb (text b) (text this)); [injection M as <-; left; reflexivity|].
+      destruct (text_merge o b this ot rs) as [[ls [|]]|] eqn:T; [| |discriminate]; injection M as <-;
+        right; eexists; eexists; (split; [exact T|reflexivity]).
+    + destruct (bytes_eqb (text this) (text b)); intros H Hm; injection H as <-; discriminate.
+    + destruct sid.
+      * destruct (bytes_eqb (text this) (text ot)); [intros H Hm; injection H as <-; discriminate|].
+        destruct (text_merge o [] this ot rs) as [[ls [|]]|] eqn:T; [| |discriminate]; intros H Hm; injection H as <-;
+          exists ot; (split; [reflexivity|]); right; eexists; eexists; (split; [exact T|reflexivity]).
+      * intros H Hm. injection H as <-. exists ot. split; [reflexivity|]. left. reflexivity.
+    + intros H Hm. injection H as <-. discriminate.
+  - destruct base as [b|], other as [ot|]; try (intros H Hm; injection H as <-; discriminate).
+    + destruct (bytes_eqb (text b) (text ot)); intros H Hm; injection H as <-; discriminate.
+    + intros H Hm. injection H as <-. exists ot. split; [reflexivity|]. left. reflexivity.
+Qed.
+
+(* ================================================================== Part 5: switch --store *)
+Lemma sstep_refused st op st' : sstep st op = (st', true) -> st' = st.
+Proof.
+  destruct op as [n t|to store]; cbn; [intros H; discriminate H|].
+  destruct store; [|intros H; discriminate H].
+  destruct (s_tree st); [|destruct (stored st (s_cur st))].
+  - match goal with |- context [match ?x with Some _ => _ | None => _ end] => destruct x end; intros H; discriminate H.
+  - intros H. injection H as <-. reflexivity.
+  - match goal with |- context [match ?x with Some _ => _ | None => _ end] => destruct x end; intros H; discriminate H.
+Qed.
+
+(* a switch (with or without --store, refused or not) neither loses nor invents uncommitted work: everything is
+   in the tree or stored in one of the branches *)
+Lemma sstep_switch_conserves st to store st' r x :
+  sstep st (OSwitch to store) = (st', r) -> (In x (all_work st) <-> In x (all_work st')).
+Proof.
+  destruct st as [cur tr sf stt]. unfold sstep, all_work, stored, set_stored, set_tree. cbn.
+  destruct store; [|intros H; injection H as <- <-; cbn; tauto].
+  destruct tr as [|e tr]; destruct cur, to, sf as [ef|], stt as [et|]; cbn; intros H; injection H as <- <-; cbn;
+    rewrite ?in_app_iff; cbn; rewrite ?in_app_iff, ?app_nil_r; cbn; tauto.
+Qed.
+
+Definition is_switch (op : sop) : bool := match op with OSwitch _ _ => true | _ => false end.
+Fixpoint srun (st : sst) (ops : list sop) : sst :=
+  match ops with [] => st | op :: t => srun (fst (sstep st op)) t end.
+
+Theorem switch_store_conserves : forall ops st x,
+  forallb is_switch ops = true -> (In x (all_work st) <-> In x (all_work (srun st ops))).
+Proof.
+  induction ops as [|op ops IH]; intros st x H; [reflexivity|].
+  cbn [forallb] in H. apply andb_true_iff in H as [H1 H2]. destruct op as [|to store]; [discriminate|].
+  cbn [srun]. destruct (sstep st (OSwitch to store)) as [st' r] eqn:E. cbn [fst].
+  rewrite (sstep_switch_conserves _ _ _ _ _ x E). apply IH. exact H2.
+Qed.
+
+(* an edit replaces the uncommitted text of that name in the tree and touches nothing stored *)
+Lemma sstep_edit st n t :
+  sstep st (OEdit n t) = (set_tree st ((n, t) :: remove_key n (s_tree st)), false).
+Proof. reflexivity. Qed.
+
+Example switch_store_ex :
+  let ops := [OEdit [102] (b_ "one"); OSwitch true true; OSwitch false false; OEdit [102] (b_ "two");
+              OSwitch true true] in
+  snd (sstep (srun sst0 (firstn 4 ops)) (OSwitch true true)) = true
+  /\ all_work (srun sst0 ops) = [([102], b_ "two"); ([102], b_ "one")].
+Proof. split; reflexivity. Qed.
